@@ -269,18 +269,18 @@ theorem doubledClose_suffix {P : Profile} {c : Char} {r r2 : List Char} (h : dou
   · exact doubled_suffix h
   · cases h
 
-theorem argBody_succ_some (cc : CharClass) (P : Profile) (f : Nat) (c : Char) (r : List Char) (acc : List Piece)
+theorem argBody_succ_some (cc : CharClass) (P : Profile) (f d : Nat) (c : Char) (r : List Char) (acc : List Piece)
     (r2 : List Char) (h : doubledClose P c r = some r2) :
-    argBody cc P (f + 1) (c :: r) acc = argBody cc P f r2 (acc ++ [.text [')']]) := by
+    argBody cc P (f + 1) d (c :: r) acc = argBody cc P f d r2 (acc ++ [.text [')']]) := by
   rw [argBody]; simp only [h]
 
-theorem argBody_succ_none (cc : CharClass) (P : Profile) (f : Nat) (c : Char) (r : List Char) (acc : List Piece)
+theorem argBody_succ_none (cc : CharClass) (P : Profile) (f d : Nat) (c : Char) (r : List Char) (acc : List Piece)
     (h : doubledClose P c r = none) :
-    argBody cc P (f + 1) (c :: r) acc =
+    argBody cc P (f + 1) d (c :: r) acc =
       if c = ')' then .ok acc r
       else
-        match nextWith cc P (fun x => argsLoop cc P f x []) (c :: r) with
-        | .ok (some p) r' => argBody cc P f r' (acc ++ [p])
+        match nextWith cc P (fun x => argsLoop cc P f d x []) (c :: r) with
+        | .ok (some p) r' => argBody cc P f d r' (acc ++ [p])
         | .ok none r' => .fail eUnclosedParen r'
         | .fail e r' => .fail e r'
         | .panic w => .panic w
@@ -288,7 +288,7 @@ theorem argBody_succ_none (cc : CharClass) (P : Profile) (f : Nat) (c : Char) (r
   rw [argBody]; simp only [h]
   split
   · rfl
-  · cases nextWith cc P (fun x => argsLoop cc P f x []) (c :: r) with
+  · cases nextWith cc P (fun x => argsLoop cc P f d x []) (c :: r) with
     | ok o r' => cases o <;> rfl
     | fail e r' => rfl
     | panic w => rfl
@@ -296,26 +296,28 @@ theorem argBody_succ_none (cc : CharClass) (P : Profile) (f : Nat) (c : Char) (r
 
 /-- every parser function returns a suffix of its input, for any fuel -/
 theorem args_body_suffix (cc : CharClass) (P : Profile) : ∀ f : Nat,
-    (∀ s acc, (argsLoop cc P f s acc).RestSuffix s) ∧ (∀ s acc, (argBody cc P f s acc).RestSuffix s) := by
+    (∀ d s acc, (argsLoop cc P f d s acc).RestSuffix s) ∧ (∀ d s acc, (argBody cc P f d s acc).RestSuffix s) := by
   intro f
   induction f with
-  | zero => constructor <;> intro s acc <;> simp [argsLoop, argBody, PR.RestSuffix]
+  | zero => constructor <;> intro d s acc <;> simp [argsLoop, argBody, PR.RestSuffix]
   | succ f ih =>
     obtain ⟨ihA, ihB⟩ := ih
     constructor
-    · intro s acc
+    · intro d s acc
       cases s with
       | nil => simp [argsLoop, PR.RestSuffix]
       | cons c r =>
         rw [argsLoop]
         split
-        · have hb := ihB r []
+        · split
+          · simp [PR.RestSuffix]
+          have hb := ihB (d + 1) r []
           split
           · rename_i a r' hbody
             rw [hbody] at hb
             simp only [PR.RestSuffix] at hb
-            have ha := ihA r' (acc ++ [a])
-            generalize argsLoop cc P f r' (acc ++ [a]) = res at ha
+            have ha := ihA d r' (acc ++ [a])
+            generalize argsLoop cc P f d r' (acc ++ [a]) = res at ha
             cases res with
             | ok v r'' => simp only [PR.RestSuffix] at ha ⊢; exact suffix_of_cons (ha.trans hb)
             | fail e r'' => simp only [PR.RestSuffix] at ha ⊢; exact suffix_of_cons (ha.trans hb)
@@ -327,31 +329,31 @@ theorem args_body_suffix (cc : CharClass) (P : Profile) : ∀ f : Nat,
           · simp [PR.RestSuffix]
           · simp [PR.RestSuffix]
         · simp [PR.RestSuffix]
-    · intro s acc
+    · intro d s acc
       cases s with
       | nil => simp [argBody, PR.RestSuffix]
       | cons c r =>
         cases hdc : doubledClose P c r
         case some r2 =>
-          rw [argBody_succ_some cc P f c r acc r2 hdc]
-          have hb := ihB r2 (acc ++ [.text [')']])
+          rw [argBody_succ_some cc P f d c r acc r2 hdc]
+          have hb := ihB d r2 (acc ++ [.text [')']])
           have hs := doubledClose_suffix hdc
-          generalize argBody cc P f r2 (acc ++ [.text [')']]) = res at hb
+          generalize argBody cc P f d r2 (acc ++ [.text [')']]) = res at hb
           cases res with
           | ok v r'' => simp only [PR.RestSuffix] at hb ⊢; exact suffix_of_cons (hb.trans hs)
           | fail e r'' => simp only [PR.RestSuffix] at hb ⊢; exact suffix_of_cons (hb.trans hs)
           | panic w => simp [PR.RestSuffix]
           | fuel => simp [PR.RestSuffix]
-        rw [argBody_succ_none cc P f c r acc hdc]
+        rw [argBody_succ_none cc P f d c r acc hdc]
         split
         · simp only [PR.RestSuffix]; exact List.suffix_cons _ _
-        · have hn := nextWith_shrinks cc P (fun x => argsLoop cc P f x []) (c :: r) (fun x => ihA x [])
+        · have hn := nextWith_shrinks cc P (fun x => argsLoop cc P f d x []) (c :: r) (fun x => ihA d x [])
           split
           · rename_i q r' hnext
             rw [hnext] at hn
             simp only [PR.NextShrinks] at hn
-            have hb := ihB r' (acc ++ [q])
-            generalize argBody cc P f r' (acc ++ [q]) = res at hb
+            have hb := ihB d r' (acc ++ [q])
+            generalize argBody cc P f d r' (acc ++ [q]) = res at hb
             cases res with
             | ok v r'' => simp only [PR.RestSuffix] at hb ⊢; exact hb.trans hn.1
             | fail e r'' => simp only [PR.RestSuffix] at hb ⊢; exact hb.trans hn.1
@@ -366,14 +368,17 @@ theorem args_body_suffix (cc : CharClass) (P : Profile) : ∀ f : Nat,
           · simp [PR.RestSuffix]
           · simp [PR.RestSuffix]
 
-theorem argsLoop_suffix (cc : CharClass) (P : Profile) (f : Nat) (s : List Char) (acc) :
-    (argsLoop cc P f s acc).RestSuffix s := (args_body_suffix cc P f).1 s acc
+theorem argsLoop_suffix (cc : CharClass) (P : Profile) (f d : Nat) (s : List Char) (acc) :
+    (argsLoop cc P f d s acc).RestSuffix s := (args_body_suffix cc P f).1 d s acc
 
-theorem argBody_suffix (cc : CharClass) (P : Profile) (f : Nat) (s : List Char) (acc) :
-    (argBody cc P f s acc).RestSuffix s := (args_body_suffix cc P f).2 s acc
+theorem argBody_suffix (cc : CharClass) (P : Profile) (f d : Nat) (s : List Char) (acc) :
+    (argBody cc P f d s acc).RestSuffix s := (args_body_suffix cc P f).2 d s acc
+
+theorem nextAt_shrinks (cc : CharClass) (P : Profile) (d : Nat) (s : List Char) : (nextAt cc P d s).NextShrinks s :=
+  nextWith_shrinks cc P _ s (fun x => argsLoop_suffix cc P s.length d x [])
 
 theorem next_shrinks (cc : CharClass) (P : Profile) (s : List Char) : (next cc P s).NextShrinks s :=
-  nextWith_shrinks cc P _ s (fun x => argsLoop_suffix cc P s.length x [])
+  nextAt_shrinks cc P 0 s
 
 
 /-! ### fuel: `input.length + 1` is enough, and more fuel changes nothing -/
@@ -439,52 +444,54 @@ theorem nextWith_ne_fuel (cc : CharClass) (P : Profile) (F : List Char → PR (L
             · simp [textPiece]
 
 theorem args_body_ne_fuel (cc : CharClass) (P : Profile) : ∀ f : Nat,
-    (∀ s acc, s.length < f → argsLoop cc P f s acc ≠ .fuel) ∧
-    (∀ s acc, s.length < f → argBody cc P f s acc ≠ .fuel) := by
+    (∀ d s acc, s.length < f → argsLoop cc P f d s acc ≠ .fuel) ∧
+    (∀ d s acc, s.length < f → argBody cc P f d s acc ≠ .fuel) := by
   intro f
   induction f with
-  | zero => constructor <;> intro s acc h <;> omega
+  | zero => constructor <;> intro d s acc h <;> omega
   | succ f ih =>
     obtain ⟨ihA, ihB⟩ := ih
     constructor
-    · intro s acc hlen
+    · intro d s acc hlen
       cases s with
       | nil => simp [argsLoop]
       | cons c r =>
         simp only [List.length_cons] at hlen
         rw [argsLoop]
         split
-        · have hb := argBody_suffix cc P f r []
+        · split
+          · simp
+          have hb := argBody_suffix cc P f (d + 1) r []
           split
           · rename_i a r' hbody
             rw [hbody] at hb
             simp only [PR.RestSuffix] at hb
             have := hb.length_le
-            exact ihA r' _ (by omega)
+            exact ihA d r' _ (by omega)
           · simp
           · simp
-          · rename_i hbody; exact absurd hbody (ihB r [] (by omega))
+          · rename_i hbody; exact absurd hbody (ihB (d + 1) r [] (by omega))
         · simp
-    · intro s acc hlen
+    · intro d s acc hlen
       cases s with
       | nil => simp [argBody]
       | cons c r =>
         simp only [List.length_cons] at hlen
         cases hdc : doubledClose P c r
         case some r2 =>
-          rw [argBody_succ_some cc P f c r acc r2 hdc]
+          rw [argBody_succ_some cc P f d c r acc r2 hdc]
           have := (doubledClose_suffix hdc).length_le
-          exact ihB r2 _ (by omega)
-        rw [argBody_succ_none cc P f c r acc hdc]
+          exact ihB d r2 _ (by omega)
+        rw [argBody_succ_none cc P f d c r acc hdc]
         split
         · simp
-        · have hn := nextWith_shrinks cc P (fun x => argsLoop cc P f x []) (c :: r)
-            (fun x => argsLoop_suffix cc P f x [])
+        · have hn := nextWith_shrinks cc P (fun x => argsLoop cc P f d x []) (c :: r)
+            (fun x => argsLoop_suffix cc P f d x [])
           split
           · rename_i q r' hnext
             rw [hnext] at hn
             simp only [PR.NextShrinks, List.length_cons] at hn
-            exact ihB r' _ (by omega)
+            exact ihB d r' _ (by omega)
           · simp
           · simp
           · simp
@@ -492,19 +499,19 @@ theorem args_body_ne_fuel (cc : CharClass) (P : Profile) : ∀ f : Nat,
             refine absurd hnext (nextWith_ne_fuel cc P _ _ ?_)
             intro x hx
             simp only [List.length_cons] at hx
-            exact ihA x [] (by omega)
+            exact ihA d x [] (by omega)
 
 /-- with enough fuel the amount of fuel is irrelevant -/
 theorem args_body_fuel_irrel (cc : CharClass) (P : Profile) : ∀ f : Nat,
-    (∀ f' s acc, s.length < f → s.length < f' → argsLoop cc P f s acc = argsLoop cc P f' s acc) ∧
-    (∀ f' s acc, s.length < f → s.length < f' → argBody cc P f s acc = argBody cc P f' s acc) := by
+    (∀ f' d s acc, s.length < f → s.length < f' → argsLoop cc P f d s acc = argsLoop cc P f' d s acc) ∧
+    (∀ f' d s acc, s.length < f → s.length < f' → argBody cc P f d s acc = argBody cc P f' d s acc) := by
   intro f
   induction f with
-  | zero => constructor <;> intro f' s acc h <;> omega
+  | zero => constructor <;> intro f' d s acc h <;> omega
   | succ f ih =>
     obtain ⟨ihA, ihB⟩ := ih
     constructor
-    · intro f' s acc hlen hlen'
+    · intro f' d s acc hlen hlen'
       cases f' with
       | zero => omega
       | succ f' =>
@@ -514,19 +521,21 @@ theorem args_body_fuel_irrel (cc : CharClass) (P : Profile) : ∀ f : Nat,
           simp only [List.length_cons] at hlen hlen'
           rw [argsLoop, argsLoop]
           split
-          · rw [← ihB f' r [] (by omega) (by omega)]
-            have hb := argBody_suffix cc P f r []
+          · split
+            · rfl
+            rw [← ihB f' (d + 1) r [] (by omega) (by omega)]
+            have hb := argBody_suffix cc P f (d + 1) r []
             split
             · rename_i a r' hbody
               rw [hbody] at hb
               simp only [PR.RestSuffix] at hb
               have := hb.length_le
-              exact ihA f' r' _ (by omega) (by omega)
+              exact ihA f' d r' _ (by omega) (by omega)
             · rfl
             · rfl
             · rfl
           · rfl
-    · intro f' s acc hlen hlen'
+    · intro f' d s acc hlen hlen'
       cases f' with
       | zero => omega
       | succ f' =>
@@ -536,53 +545,56 @@ theorem args_body_fuel_irrel (cc : CharClass) (P : Profile) : ∀ f : Nat,
           simp only [List.length_cons] at hlen hlen'
           cases hdc : doubledClose P c r
           case some r2 =>
-            rw [argBody_succ_some cc P f c r acc r2 hdc, argBody_succ_some cc P f' c r acc r2 hdc]
+            rw [argBody_succ_some cc P f d c r acc r2 hdc, argBody_succ_some cc P f' d c r acc r2 hdc]
             have := (doubledClose_suffix hdc).length_le
-            exact ihB f' r2 _ (by omega) (by omega)
-          rw [argBody_succ_none cc P f c r acc hdc, argBody_succ_none cc P f' c r acc hdc]
+            exact ihB f' d r2 _ (by omega) (by omega)
+          rw [argBody_succ_none cc P f d c r acc hdc, argBody_succ_none cc P f' d c r acc hdc]
           split
           · rfl
-          · have hcongr : nextWith cc P (fun x => argsLoop cc P f' x []) (c :: r) =
-                nextWith cc P (fun x => argsLoop cc P f x []) (c :: r) := by
+          · have hcongr : nextWith cc P (fun x => argsLoop cc P f' d x []) (c :: r) =
+                nextWith cc P (fun x => argsLoop cc P f d x []) (c :: r) := by
               apply nextWith_congr
               intro x hx
               simp only [List.length_cons] at hx
-              exact (ihA f' x [] (by omega) (by omega)).symm
+              exact (ihA f' d x [] (by omega) (by omega)).symm
             rw [hcongr]
-            have hn := nextWith_shrinks cc P (fun x => argsLoop cc P f x []) (c :: r)
-              (fun x => argsLoop_suffix cc P f x [])
+            have hn := nextWith_shrinks cc P (fun x => argsLoop cc P f d x []) (c :: r)
+              (fun x => argsLoop_suffix cc P f d x [])
             split
             · rename_i q r' hnext
               rw [hnext] at hn
               simp only [PR.NextShrinks, List.length_cons] at hn
-              exact ihB f' r' _ (by omega) (by omega)
+              exact ihB f' d r' _ (by omega) (by omega)
             · rfl
             · rfl
             · rfl
             · rfl
 
-theorem argsLoop_fuel_irrel (cc : CharClass) (P : Profile) {f f' : Nat} {s : List Char} (acc)
-    (h : s.length < f) (h' : s.length < f') : argsLoop cc P f s acc = argsLoop cc P f' s acc :=
-  (args_body_fuel_irrel cc P f).1 f' s acc h h'
+theorem argsLoop_fuel_irrel (cc : CharClass) (P : Profile) {f f' : Nat} (d : Nat) {s : List Char} (acc)
+    (h : s.length < f) (h' : s.length < f') : argsLoop cc P f d s acc = argsLoop cc P f' d s acc :=
+  (args_body_fuel_irrel cc P f).1 f' d s acc h h'
 
-theorem argBody_fuel_irrel (cc : CharClass) (P : Profile) {f f' : Nat} {s : List Char} (acc)
-    (h : s.length < f) (h' : s.length < f') : argBody cc P f s acc = argBody cc P f' s acc :=
-  (args_body_fuel_irrel cc P f).2 f' s acc h h'
+theorem argBody_fuel_irrel (cc : CharClass) (P : Profile) {f f' : Nat} (d : Nat) {s : List Char} (acc)
+    (h : s.length < f) (h' : s.length < f') : argBody cc P f d s acc = argBody cc P f' d s acc :=
+  (args_body_fuel_irrel cc P f).2 f' d s acc h h'
 
 /-- the fuel convention of DESIGN.md Appendix A for the two fuelled functions -/
-theorem argsLoop_fuel_mono (cc : CharClass) (P : Profile) (fuel : Nat) (s : List Char) (acc)
-    (h : fuel ≥ s.length + 1) : argsLoop cc P fuel s acc = argsLoop cc P (s.length + 1) s acc :=
-  argsLoop_fuel_irrel cc P acc (by omega) (by omega)
+theorem argsLoop_fuel_mono (cc : CharClass) (P : Profile) (fuel d : Nat) (s : List Char) (acc)
+    (h : fuel ≥ s.length + 1) : argsLoop cc P fuel d s acc = argsLoop cc P (s.length + 1) d s acc :=
+  argsLoop_fuel_irrel cc P d acc (by omega) (by omega)
 
-theorem argBody_fuel_mono (cc : CharClass) (P : Profile) (fuel : Nat) (s : List Char) (acc)
-    (h : fuel ≥ s.length + 1) : argBody cc P fuel s acc = argBody cc P (s.length + 1) s acc :=
-  argBody_fuel_irrel cc P acc (by omega) (by omega)
+theorem argBody_fuel_mono (cc : CharClass) (P : Profile) (fuel d : Nat) (s : List Char) (acc)
+    (h : fuel ≥ s.length + 1) : argBody cc P fuel d s acc = argBody cc P (s.length + 1) d s acc :=
+  argBody_fuel_irrel cc P d acc (by omega) (by omega)
 
-theorem next_ne_fuel (cc : CharClass) (P : Profile) (s : List Char) : next cc P s ≠ .fuel := by
-  unfold next
+theorem nextAt_ne_fuel (cc : CharClass) (P : Profile) (d : Nat) (s : List Char) : nextAt cc P d s ≠ .fuel := by
+  unfold nextAt
   apply nextWith_ne_fuel
   intro x hx
-  exact (args_body_ne_fuel cc P s.length).1 x [] hx
+  exact (args_body_ne_fuel cc P s.length).1 d x [] hx
+
+theorem next_ne_fuel (cc : CharClass) (P : Profile) (s : List Char) : next cc P s ≠ .fuel :=
+  nextAt_ne_fuel cc P 0 s
 
 theorem next_ne_fail (cc : CharClass) (P : Profile) (s : List Char) e r : next cc P s ≠ .fail e r := by
   intro h
@@ -706,62 +718,64 @@ theorem nextWith_ne_panic (cc : CharClass) (P : Profile) (F : List Char → PR (
             · simp [textPiece]
 
 theorem args_body_ne_panic (cc : CharClass) (P : Profile) : ∀ f : Nat,
-    (∀ s acc, IntSafe P s → ∀ w, argsLoop cc P f s acc ≠ .panic w) ∧
-    (∀ s acc, IntSafe P s → ∀ w, argBody cc P f s acc ≠ .panic w) := by
+    (∀ d s acc, IntSafe P s → ∀ w, argsLoop cc P f d s acc ≠ .panic w) ∧
+    (∀ d s acc, IntSafe P s → ∀ w, argBody cc P f d s acc ≠ .panic w) := by
   intro f
   induction f with
-  | zero => constructor <;> intro s acc _ w <;> simp [argsLoop, argBody]
+  | zero => constructor <;> intro d s acc _ w <;> simp [argsLoop, argBody]
   | succ f ih =>
     obtain ⟨ihA, ihB⟩ := ih
     constructor
-    · intro s acc hs w
+    · intro d s acc hs w
       cases s with
       | nil => simp [argsLoop]
       | cons c r =>
         rw [argsLoop]
         split
-        · have hb := argBody_suffix cc P f r []
+        · split
+          · simp
+          have hb := argBody_suffix cc P f (d + 1) r []
           split
           · rename_i a r' hbody
             rw [hbody] at hb
             simp only [PR.RestSuffix] at hb
-            exact ihA r' _ (hs.suffix (suffix_of_cons hb)) w
+            exact ihA d r' _ (hs.suffix (suffix_of_cons hb)) w
           · simp
           · rename_i w' hbody
-            exact absurd hbody (ihB r [] (hs.suffix (List.suffix_cons c r)) w')
+            exact absurd hbody (ihB (d + 1) r [] (hs.suffix (List.suffix_cons c r)) w')
           · simp
         · simp
-    · intro s acc hs w
+    · intro d s acc hs w
       cases s with
       | nil => simp [argBody]
       | cons c r =>
         cases hdc : doubledClose P c r
         case some r2 =>
-          rw [argBody_succ_some cc P f c r acc r2 hdc]
-          exact ihB r2 _ (hs.suffix (suffix_of_cons (doubledClose_suffix hdc))) w
-        rw [argBody_succ_none cc P f c r acc hdc]
+          rw [argBody_succ_some cc P f d c r acc r2 hdc]
+          exact ihB d r2 _ (hs.suffix (suffix_of_cons (doubledClose_suffix hdc))) w
+        rw [argBody_succ_none cc P f d c r acc hdc]
         split
         · simp
-        · have hn := nextWith_shrinks cc P (fun x => argsLoop cc P f x []) (c :: r)
-            (fun x => argsLoop_suffix cc P f x [])
+        · have hn := nextWith_shrinks cc P (fun x => argsLoop cc P f d x []) (c :: r)
+            (fun x => argsLoop_suffix cc P f d x [])
           split
           · rename_i q r' hnext
             rw [hnext] at hn
             simp only [PR.NextShrinks] at hn
-            exact ihB r' _ (hs.suffix hn.1) w
+            exact ihB d r' _ (hs.suffix hn.1) w
           · simp
           · simp
           · rename_i w' hnext
-            refine absurd hnext (nextWith_ne_panic cc P _ _ hs (fun x => argsLoop_suffix cc P f x []) ?_ w')
+            refine absurd hnext (nextWith_ne_panic cc P _ _ hs (fun x => argsLoop_suffix cc P f d x []) ?_ w')
             intro x hx w''
-            exact ihA x [] (hs.suffix hx) w''
+            exact ihA d x [] (hs.suffix hx) w''
           · simp
 
 theorem next_ne_panic (cc : CharClass) (P : Profile) (s : List Char) (hs : IntSafe P s) (w : String) :
     next cc P s ≠ .panic w := by
-  unfold next
-  exact nextWith_ne_panic cc P _ s hs (fun x => argsLoop_suffix cc P _ x [])
-    (fun x hx w' => (args_body_ne_panic cc P s.length).1 x [] (hs.suffix hx) w') w
+  unfold next nextAt
+  exact nextWith_ne_panic cc P _ s hs (fun x => argsLoop_suffix cc P _ 0 x [])
+    (fun x hx w' => (args_body_ne_panic cc P s.length).1 0 x [] (hs.suffix hx) w') w
 
 theorem parseLoop_ne_panic (cc : CharClass) (P : Profile) :
     ∀ (n : Nat) (s : List Char), IntSafe P s → ∀ w, parseLoop cc P n s ≠ .panic w := by
@@ -861,46 +875,51 @@ theorem intSafe_of_digitRunsFit (P : Profile) (s : List Char) (h : digitRunsFit 
   exact integerLoop_ne_panic_of_fit P t 0 cur' false w hc (Nat.zero_le _)
 
 
-/-! ### `Err("unclosed '('")` only arises at the end of the input -/
+/-! ### `args()` / `arg()` fail only with nothing left of the input: `Err("unclosed '('")` at the
+end of the input, `Err("nesting too deep")` after swallowing the rest -/
 
 theorem args_body_fail (cc : CharClass) (P : Profile) : ∀ f : Nat,
-    (∀ s acc e r, argsLoop cc P f s acc = .fail e r → e = eUnclosedParen ∧ r = []) ∧
-    (∀ s acc e r, argBody cc P f s acc = .fail e r → e = eUnclosedParen ∧ r = []) := by
+    (∀ d s acc e r, argsLoop cc P f d s acc = .fail e r →
+      (e = eUnclosedParen ∨ e = eNestingTooDeep) ∧ r = []) ∧
+    (∀ d s acc e r, argBody cc P f d s acc = .fail e r →
+      (e = eUnclosedParen ∨ e = eNestingTooDeep) ∧ r = []) := by
   intro f
   induction f with
-  | zero => constructor <;> intro s acc e r h <;> simp [argsLoop, argBody] at h
+  | zero => constructor <;> intro d s acc e r h <;> simp [argsLoop, argBody] at h
   | succ f ih =>
     obtain ⟨ihA, ihB⟩ := ih
     constructor
-    · intro s acc e r h
+    · intro d s acc e r h
       cases s with
       | nil => simp [argsLoop] at h
       | cons c t =>
         rw [argsLoop] at h
         split at h
         · split at h
-          · exact ihA _ _ _ _ h
+          · cases h; exact ⟨Or.inr rfl, rfl⟩
+          split at h
+          · exact ihA _ _ _ _ _ h
           · rename_i e' r' hbody
             cases h
-            exact ihB _ _ _ _ hbody
+            exact ihB _ _ _ _ _ hbody
           · cases h
           · cases h
         · cases h
-    · intro s acc e r h
+    · intro d s acc e r h
       cases s with
-      | nil => simp [argBody] at h; exact ⟨h.1.symm, h.2⟩
+      | nil => simp [argBody] at h; exact ⟨Or.inl h.1.symm, h.2⟩
       | cons c t =>
         cases hdc : doubledClose P c t
         case some r2 =>
-          rw [argBody_succ_some cc P f c t acc r2 hdc] at h
-          exact ihB _ _ _ _ h
-        rw [argBody_succ_none cc P f c t acc hdc] at h
+          rw [argBody_succ_some cc P f d c t acc r2 hdc] at h
+          exact ihB _ _ _ _ _ h
+        rw [argBody_succ_none cc P f d c t acc hdc] at h
         split at h
         · cases h
-        · have hn := nextWith_shrinks cc P (fun x => argsLoop cc P f x []) (c :: t)
-            (fun x => argsLoop_suffix cc P f x [])
+        · have hn := nextWith_shrinks cc P (fun x => argsLoop cc P f d x []) (c :: t)
+            (fun x => argsLoop_suffix cc P f d x [])
           split at h
-          · exact ihB _ _ _ _ h
+          · exact ihB _ _ _ _ _ h
           · rename_i r' hnext
             rw [hnext] at hn
             simp only [PR.NextShrinks] at hn
